@@ -54,6 +54,9 @@ mod swarm;
 mod swarm_manager;
 mod utils;
 
+#[cfg(eigerco_lumina_verif)]
+pub(crate) use crate::p2p::header_ex::client_sim_verif_hooks as header_ex_client_sim_verif_hooks;
+
 use crate::block_ranges::BlockRange;
 use crate::events::EventPublisher;
 use crate::p2p::header_session::HeaderSession;
